@@ -46,8 +46,19 @@ class Loader(importlib.machinery.SourceFileLoader):
         return self.source_to_code(self.get_data(path), path)
 
 
+class PlainLoader(importlib.machinery.SourceFileLoader):
+    """The same working tree, compiled from source without any rewrite (used by replays)."""
+
+    def get_code(self, fullname):
+        path = self.get_filename(fullname)
+        return compile(self.get_data(path), path, "exec", dont_inherit=True)
+
+
 class Finder(importlib.abc.MetaPathFinder):
+    loader = Loader
+
     def find_spec(self, fullname, path, target=None):
+        Loader = self.loader
         if not (fullname == "dissect.cstruct" or fullname.startswith("dissect.cstruct.")):
             return None
         base = os.path.join(REPO, *fullname.split("."))
@@ -69,6 +80,12 @@ def install(dispatch, contains):
     sys.meta_path.insert(0, Finder())
 
 
+class PlainFinder(Finder):
+    loader = PlainLoader
+
+
 def install_plain():
     """Un-instrumented import of the same working tree (used by replays)."""
-    sys.path.insert(0, REPO)
+    for m in [m for m in sys.modules if m == "dissect.cstruct" or m.startswith("dissect.cstruct.")]:
+        del sys.modules[m]
+    sys.meta_path.insert(0, PlainFinder())
